@@ -9,3 +9,4 @@ import DiplomatModel.Props.C12
 #print axioms DiplomatModel.Props.C12.cpp_string_exact
 #print axioms DiplomatModel.Props.C12.rust_buffer_exact
 #print axioms DiplomatModel.Props.C12.write_struct_agrees
+#print axioms DiplomatModel.Props.C12.cpp_string_exact_with_flushes
